@@ -256,3 +256,104 @@ def y4_duplicates(ctx):
 
 
 RULES = [('Y1', y1_rule_list), ('Y2', y2_siblings), ('Y3', y3_field_names), ('Y4', y4_duplicates)]
+
+
+def y5_history_free(ctx):
+    """Y5 a registration depends on the configuration, the language and the pattern text only: the tokens stored for a rule,
+    a unit item or a date rule are, on every path, the result of Tokinizer::token_infos on a session created for that one
+    pattern - never a value kept from an earlier registration; the calculator has no state besides its configuration"""
+    ctx.rule('Y5', 'registrations are history-free', floor=7)
+    adt = ctx.facts.adts.get('smartcalc::SmartCalc')
+    if not adt:
+        raise AnchorLost('struct smartcalc::SmartCalc not found')
+    fields = [(f['name'], f['ty']) for v in adt['variants'] for f in v['fields']]
+    extra = [(n, t) for n, t in fields if not re.search(r'SmartCalcConfig$', t)]
+    if extra:
+        for n, t in extra:
+            ctx.finding('Y5', 'SmartCalc/state/%s' % n, 'the calculator keeps state besides its configuration: field %s: %s (what is registered or evaluated may now depend on earlier calls)' % (n, t[:80]), site=adt.get('loc'))
+    else:
+        ctx.ok('Y5', 'SmartCalc holds its configuration and nothing else', 'types', site=adt.get('loc'))
+    for fn_ in ('add_rule', 'add_dynamic_type_item', 'set_date_rule'):
+        b = ctx.facts.body('smartcalc::SmartCalc::' + fn_)
+        ctx.fn(b)
+        bodies = [b] + [c for c in ctx.facts.bodies.values() if c.kind == 'closure' and c.rec.get('parent') == b.path]
+        calls = [(c, bid, t) for c in bodies for bid, t in c.calls(r"Tokinizer::<'a>::token_infos$|Tokinizer::token_infos$")]
+        if not calls:
+            ctx.finding('Y5', '%s/no-tokenisation' % fn_, '%s does not tokenise its patterns with Tokinizer::token_infos' % fn_, site=b.loc)
+            continue
+        for c, bid, t in calls:
+            sess = strip(c.expr(t['args'][1]))
+            cfg = render(c.expr(t['args'][0]))
+            if sess[0] == 'call' and re.search(r'session::Session::new$', sess[1]) and cfg.endswith('.config'):
+                ctx.ok('Y5', '%s: token_infos(self.config, fresh session)' % fn_, 'use-def', site=t['loc'])
+            else:
+                ctx.finding('Y5', '%s/session' % fn_, '%s tokenises a pattern with token_infos(%s, %s): the session must be created for this one pattern' % (fn_, cfg[:40], render(sess)[:60]), site=t['loc'])
+        # what is collected: every value pushed into a list of token lists is such a result
+        n = 0
+        for c in bodies:
+            for bid, t in c.calls(r'Vec::<.*>::push$'):
+                from ..facts import opplace
+                p = opplace(t['args'][1])
+                ty = c.locals.get(p['local'], '') if p else ''
+                if not re.match(r'^alloc::vec::Vec<alloc::rc::Rc<tokinizer::TokenInfo>>$', ty.replace(' ', '')) and 'Vec<alloc::rc::Rc<tokinizer::TokenInfo>>' not in ty:
+                    continue
+                if ty.count('Vec<') != 1:
+                    continue
+                n += 1
+                bad = []
+                for a, conds in alternatives(c, c.expr(t['args'][1])):
+                    sa = strip(a, transparent=False)
+                    if not (sa[0] == 'call' and re.search(r'Tokinizer::(<.*>::)?token_infos$', sa[1])):
+                        bad.append(render(a)[:90])
+                if bad:
+                    ctx.finding('Y5', '%s/token-source' % fn_, '%s stores pattern tokens that are not freshly tokenised on every path: %s' % (fn_, ' | '.join(bad)), site=t['loc'])
+                else:
+                    ctx.ok('Y5', '%s: every stored token list is a token_infos result' % fn_, 'gamma', site=t['loc'])
+        if not n:
+            # iterator form: the closure(s) handed to map/collect return the token_infos result
+            for c in bodies[1:]:
+                r = strip(c.ret_expr(), transparent=False)
+                if any(x[0] == 'call' and re.search(r'token_infos$', x[1]) for x in walk(c.ret_expr())):
+                    n += 1
+                    alts = [strip(a, transparent=False) for a, _ in alternatives(c, c.ret_expr())]
+                    if all(a[0] == 'call' and re.search(r'token_infos$', a[1]) for a in alts):
+                        ctx.ok('Y5', '%s: the mapping closure returns the token_infos result' % fn_, 'gamma', site=c.loc)
+                    else:
+                        ctx.finding('Y5', '%s/token-source' % fn_, '%s: the mapping closure returns %s' % (fn_, [render(a)[:60] for a in alts]), site=c.loc)
+            if not n:
+                raise AnchorLost('%s: cannot see how the token lists are collected (no push of a token list, no mapping closure)' % fn_)
+
+
+def y6_field_syntax(ctx):
+    """Y6 a pattern field {TYPE:name:extra} is read by the first field regex: NAME must exclude nothing a name may contain
+    and EXTRA must accept every character an expected word can have (upper case, digits, non-ASCII letters); otherwise the
+    pattern falls through to the two-part regex and is bound under the name 'name:extra' without the word constraint"""
+    from ..data import all_groups, alphabet, ranges_subset
+    ctx.rule('Y6', 'pattern field syntax', floor=2)
+    fam = ctx.config.parse_family('field')
+    if len(fam) < 2:
+        raise AnchorLost('config.json parse.field: expected the three-part and the two-part field regex')
+    need = [(0x30, 0x39), (0x41, 0x5a), (0x61, 0x7a), (0x5f, 0x5f), (0xc0, 0x24f), (0x400, 0x4ff)]
+    three = [(p, h) for p, h in fam if h is not None and 'EXTRA' in all_groups(h)]
+    two = [(p, h) for p, h in fam if h is not None and 'EXTRA' not in all_groups(h)]
+    if not three or not two:
+        raise AnchorLost('config.json parse.field: a field regex with and one without an EXTRA group are expected')
+    for p, h in three:
+        g = all_groups(h)
+        for name in ('NAME', 'EXTRA'):
+            if name not in g:
+                ctx.finding('Y6', 'field/%s-missing' % name, 'field regex %r has no %s group' % (p, name), site='config.json parse.field')
+                continue
+            al = alphabet(g[name])
+            if ranges_subset(need, al):
+                ctx.ok('Y6', 'three-part field regex: %s accepts letters of any case, digits, non-ASCII letters' % name, 'regex-alphabet', site='config.json parse.field')
+            else:
+                miss = [r for r in need if not ranges_subset([r], al)]
+                ctx.finding('Y6', 'field/%s-alphabet' % name, 'the %s part of {TYPE:name:extra} only accepts %s: a pattern whose %s contains e.g. %s falls through to the two-part regex, is bound under the wrong name and loses its expected word'
+                            % (name, p[p.find('(?P<%s>' % name):][:40], name.lower(), ', '.join(repr(chr(lo)) for lo, _ in miss[:3])), site='config.json parse.field')
+    # order: the three-part regex is tried first (the list order is the match priority for equal spans)
+    if [p for p, _ in fam].index(three[0][0]) > [p for p, _ in fam].index(two[0][0]):
+        ctx.finding('Y6', 'field/order', 'the two-part field regex precedes the three-part one', site='config.json parse.field')
+
+
+RULES += [('Y5', y5_history_free), ('Y6', y6_field_syntax)]
